@@ -139,8 +139,8 @@ func parseFromStdin(cmd *cobra.Command) error {
 	// Create parser
 	parser := NewParser(cmd.OutOrStdout(), cmd.ErrOrStderr(), opts)
 
-	// Parse the stdin content (Parse accepts string input directly)
-	result, err := parser.Parse(string(content))
+	// Parse the stdin content as SQL: it must not be mistaken for a file path
+	result, err := parser.ParseSQL(content)
 	if err != nil {
 		return err
 	}
